@@ -10,13 +10,22 @@ DEFAULT_FUNCS = {
 }
 
 
+def _arm_opcode_tracing():
+    sys._getframe().f_trace_opcodes = True
+
+
 class Preempter(object):
     def __init__(self, sim, prob=0.25, funcs=None, path_part='/pynetdicom2/', park_prob=0.0,
-                 park_max=0.2):
+                 park_max=0.2, opcode_prob=0.0, opcode_funcs=None):
         """park_prob: fraction of the pre-emptions that park the thread for up to park_max
         virtual seconds (a slow thread inside the function) instead of merely yielding - other
         threads then run until they block, which lets a second thread reach the same code."""
         self.sim = sim
+        # opcode_prob > 0: every bytecode instruction of the selected functions is a possible
+        # scheduling point as well (frame.f_trace_opcodes), so a thread can lose the processor
+        # between evaluating an expression and storing its result (sub-line races)
+        self.opcode_prob = opcode_prob
+        self.opcode_funcs = opcode_funcs        # None: every selected function
         self.park_prob = park_prob
         self.park_max = park_max
         self.prob = prob
@@ -29,24 +38,41 @@ class Preempter(object):
             return None
         code = frame.f_code
         if code.co_name in self.funcs and self.path_part in code.co_filename:
+            if self.opcode_prob and (self.opcode_funcs is None or
+                                     code.co_name in self.opcode_funcs):
+                frame.f_trace_opcodes = True
             return self._local
         return None
 
     def _local(self, frame, event, arg):
-        if event == 'line' and self.active:
+        if self.active and (event == 'line' or event == 'opcode'):
             sim = self.sim
             if sim.in_task() and not sim._aborting:
-                if sim.chance('preempt', self.prob, 'pre'):
+                if event == 'opcode':
+                    if not self.opcode_prob or \
+                            not sim.chance('preempt', self.opcode_prob, 'preop'):
+                        return self._local
+                    sim.bump('probe.opcode_preemptions')
+                elif not sim.chance('preempt', self.prob, 'pre'):
+                    return self._local
+                else:
                     sim.bump('probe.fine_grain_preemptions')
-                    if self.park_prob and sim.chance('preempt', self.park_prob, 'park'):
-                        sim.bump('probe.fine_grain_parks')
-                        sim.sleep(self.park_max * (1 + sim.choose('preempt', 8, 'parklen')) / 8.0)
-                    else:
-                        sim.yield_('preempt')
+                if self.park_prob and sim.chance('preempt', self.park_prob, 'park'):
+                    sim.bump('probe.fine_grain_parks')
+                    sim.sleep(self.park_max * (1 + sim.choose('preempt', 8, 'parklen')) / 8.0)
+                else:
+                    sim.yield_('preempt')
         return self._local
 
     def install(self):
         self.active = True
+        if self.opcode_prob:
+            # CPython 3.12 turns instruction events on for a thread when that thread calls
+            # sys.settrace() AFTER some frame has asked for opcode tracing (an interpreter-wide
+            # switch).  Flip the switch here, from a short-lived frame, before any simulated
+            # thread starts: otherwise the first run in a process sees fewer events than
+            # later ones and a replay in a fresh interpreter diverges.
+            _arm_opcode_tracing()
         threading.settrace(self._global)
 
     def uninstall(self):
